@@ -125,6 +125,8 @@ C09_Displace(pre, c, res, post) ==
                /\ SameObs(pre, post)
         /\ e.kind # 5 => \A x \in pre.retr \ post.retr :
                              a # 0 /\ Ev(x).addr = a /\ Ev(x).ts <= e.ts
+        (* other addresses never affect this one: 'replaced' needs a holder of the SAME address that is not older *)
+        /\ res = "replaced" => (a # 0 /\ \E h \in Holders(pre.retr, a) : Ev(h).ts >= e.ts)
 
 C09(pre, c, res, post) == C09_AtMostOne(post) /\ C09_Displace(pre, c, res, post)
 
